@@ -601,6 +601,8 @@ func Execute(spec *Spec, opt Options) *Result {
 		strat = engine.NewPCTW(srng, spec.Strategy.D, est)
 	case "window":
 		strat = engine.NewWindow(srng, spec.Strategy.Den)
+	case "duel":
+		strat = engine.NewDuel(srng, spec.Strategy.Den)
 	default:
 		strat = engine.NewRTC(srng, spec.Strategy.Den)
 	}
